@@ -339,7 +339,7 @@ pub fn run(cfg: &Config, worker: usize, program: &[u8], w: &World, plan: &Plan) 
 }
 
 fn run_inner(cfg: &Config, worker: usize, program: &[u8], w: &World, plan: &Plan) -> std::io::Result<RunResult> {
-    let wroot = cfg.scratch.join(format!("w{worker}"));
+    let wroot = cfg.scratch.join(format!("w{worker:03}"));
     let run_root = wroot.join("run");
     let lay = materialise(&run_root, w, program)?;
     let io_dir = wroot.join("io");
@@ -680,7 +680,9 @@ unsafe fn spawn(
 
 pub fn make_scratch() -> PathBuf {
     let base = if Path::new("/dev/shm").is_dir() { PathBuf::from("/dev/shm") } else { PathBuf::from("/var/tmp") };
-    let p = base.join(format!("seedsim-{}", std::process::id()));
+    // fixed-width names: the absolute script path is echoed in some worlds, and its
+    // length must not depend on the pid or the worker index (chunk boundaries would move)
+    let p = base.join(format!("seedsim-{:07}", std::process::id()));
     let _ = fs::remove_dir_all(&p);
     fs::create_dir_all(&p).expect("cannot create scratch dir");
     p
